@@ -33,6 +33,35 @@ INV_DTYPE_LOOKUP = {
 }
 
 
+def _resolve_data_paths(arg, source_data):
+    """Replace data paths by what they select in `source_data`.
+
+    A data path may be the argument itself, an item of a list argument or a value of a
+    mapping argument (the places where `from_spec` builds `DataPath` objects).
+    """
+    if isinstance(arg, valida.datapath.DataPath):
+        return arg.get_data(source_data, return_paths=False)
+    if isinstance(arg, (list, tuple)) and any(
+        isinstance(i, valida.datapath.DataPath) for i in arg
+    ):
+        return type(arg)(
+            i.get_data(source_data, return_paths=False)
+            if isinstance(i, valida.datapath.DataPath)
+            else i
+            for i in arg
+        )
+    if isinstance(arg, dict) and any(
+        isinstance(i, valida.datapath.DataPath) for i in arg.values()
+    ):
+        return {
+            k: v.get_data(source_data, return_paths=False)
+            if isinstance(v, valida.datapath.DataPath)
+            else v
+            for k, v in arg.items()
+        }
+    return arg
+
+
 class PreparedConditionCallable:
     def __init__(self, func, *args, **kwargs):
         self._func = func
@@ -47,17 +76,10 @@ class PreparedConditionCallable:
         if not source_data:
             return self.args, self.kwargs
 
-        resolved_args = []
-        for arg in self.args:
-            if isinstance(arg, valida.datapath.DataPath):
-                arg = arg.get_data(source_data, return_paths=False)
-            resolved_args.append(arg)
-
-        resolved_kwargs = {}
-        for k, v in self.kwargs.items():
-            if isinstance(v, valida.datapath.DataPath):
-                v = v.get_data(source_data, return_paths=False)
-            resolved_kwargs[k] = v
+        resolved_args = [_resolve_data_paths(arg, source_data) for arg in self.args]
+        resolved_kwargs = {
+            k: _resolve_data_paths(v, source_data) for k, v in self.kwargs.items()
+        }
 
         return tuple(resolved_args), resolved_kwargs
 
